@@ -309,7 +309,7 @@ theorem certified_sound (lam d0 d1 n q c : Nat)
     tLeast lam d0 d1 n q = some c := by
   unfold certified at h
   simp only [Bool.and_eq_true, Bool.or_eq_true, beq_iff_eq, Bool.not_eq_true', decide_eq_true_eq] at h
-  exact tLeast_of_boundary _ _ _ _ _ _ h.2 h.1.1 h.1.2
+  exact tLeast_of_boundary _ _ _ _ _ _ h.1.1 h.1.2 h.2
 
 theorem tLeastFast_eq (lam d0 d1 n q hint : Nat) :
     tLeastFast lam d0 d1 n q hint = tLeast lam d0 d1 n q := by
@@ -319,7 +319,9 @@ theorem tLeastFast_eq (lam d0 d1 n q hint : Nat) :
   · rename_i h
     exact (findFrom_eq_none_of_all _ _ _ (noneCert_sound _ _ _ _ _ h)).symm
   · split
-    · rename_i h; exact (certified_sound _ _ _ _ _ _ h).symm
+    · rename_i h
+      simp only [Bool.and_eq_true] at h
+      exact (certified_sound _ _ _ _ _ _ h.2).symm
     · split
       · rename_i h; exact (certified_sound _ _ _ _ _ _ h).symm
       · rfl
@@ -399,7 +401,7 @@ theorem cappedCert_sound (lam d0 d1 n q : Nat) (h : cappedCert lam d0 d1 n q = t
     tSpec lam d0 d1 n q = some n := by
   unfold cappedCert distanceUsable at h
   simp only [Bool.and_eq_true, decide_eq_true_eq, Bool.not_eq_true'] at h
-  obtain ⟨⟨⟨⟨⟨⟨hd1, hd0⟩, hd⟩, hq⟩, hn⟩, hnone⟩, hb⟩ := h
+  obtain ⟨⟨⟨⟨⟨_hL, ⟨⟨hd1, hd0⟩, hd⟩⟩, hq⟩, hn⟩, hnone⟩, hb⟩ := h
   have hres : n * 2 ^ lam < q := by
     by_contra hcon
     have : noneCert lam d0 d1 n q = true := by
@@ -422,7 +424,9 @@ theorem tSpecFast_eq (lam d0 d1 n q hint : Nat) :
     tSpecFast lam d0 d1 n q hint = tSpec lam d0 d1 n q := by
   unfold tSpecFast
   split
-  · rename_i h; exact (cappedCert_sound _ _ _ _ _ h).symm
+  · rename_i h
+    simp only [Bool.and_eq_true] at h
+    exact (cappedCert_sound _ _ _ _ _ h.2).symm
   · unfold tSpec; rw [tLeastFast_eq]
 
 /-- the model of `calculate_t` answers `t` exactly when the distance is usable and `tSpec = some t` -/
